@@ -422,6 +422,16 @@ def _c04_check(store, step, op, memo):
 J.setdefault("C04", []).append(("history", _history_hook(_c04_check)))
 
 
+def _c14_check(store, step, op, memo):
+    """a transposition must be visible through BOTH views (same events whichever view is read)"""
+    if op[0] != "OTranspose":
+        return []
+    return _c04_check(store, step, op, memo)
+
+
+J.setdefault("C14", []).append(("history", _history_hook(_c14_check)))
+
+
 @judge_for("C04", "rel_abs_rel")
 def j_c04_conv(ms):
     if any(m[0] == "WAIT" and m[2] < 0 for m in ms):
@@ -1010,10 +1020,14 @@ def j_c01(inp):
     return v
 
 
+def dup_bins(nb):
+    bs = round(127 / nb)
+    bins = [min(127, (i + 1) * bs + bs // 2) for i in range(nb)]
+    return len(set(bins)) != len(bins)
+
+
 @judge_for("C02", "vocab")
 def j_c02_vocab(cfg):
-    if cfg[5] > 127:
-        return None
     t = ops.mk_tok(cfg)
     d = t.dictionary
     v = []
@@ -1196,8 +1210,9 @@ def judge(prop, opname, inp):
 ORACLE_N = {"quick": 250, "thorough": 4000}
 
 
-def run(prop, seed, tier, extra_inputs=(), boost=1):
+def run(prop, seed, tier, extra_inputs=(), boost=1, kf=None):
     res = {"evaluations": 0, "nontrivial": 0, "failures": [], "sample": None}
+    kf = kf or {"findings": []}
     if prop == "C20":
         v, n = exhaustive_c20()
         res.update(evaluations=n, nontrivial=n, exhaustive=f"15 keys x intervals -30..30 (+ additivity with 7 second intervals), 128 x 128 pitch pairs: {n} evaluations on the implementation")
@@ -1214,6 +1229,7 @@ def run(prop, seed, tier, extra_inputs=(), boost=1):
         if opname in ("tok_stream", "history", "tok_stateful"):
             n = max(50, n // 2)
         inputs = [i for o, i in extra_inputs if o == opname] + [op.gen(rng) for _ in range(n)]
+        new_here, known_here = 0, 0
         for inp in inputs:
             try:
                 r = f(inp)
@@ -1229,9 +1245,16 @@ def run(prop, seed, tier, extra_inputs=(), boost=1):
                 if res["sample"] is None and res["nontrivial"] > 3:
                     res["sample"] = {"op": opname, "input": inp}
             if r:
-                res["failures"].append({"op": opname, "input": inp, "detail": r[:3]})
-                if len(res["failures"]) >= 25:
-                    return res
+                f = {"op": opname, "input": inp, "detail": r[:3]}
+                if recognise(prop, f, kf):
+                    known_here += 1
+                    if known_here <= 3:          # keep a few instances of listed findings, never let them crowd out new ones
+                        res["failures"].append(f)
+                else:
+                    new_here += 1
+                    res["failures"].append(f)
+                    if new_here >= 8:
+                        break
     return res
 
 
@@ -1271,6 +1294,8 @@ def recognise(prop, failure, kf):
             flat = [i for g in inp[2] for i in g]
             if len(set(flat)) != len(flat):
                 return f"{f['witness']}: {f['what']}"
+        if rec == "D15" and op == "vocab" and dup_bins(inp[5]):
+            return f"{f['witness']}: {f['what']}"
         if rec == "D18" and op == "tok_roundtrip":
             cfg = inp[0]
             if bin_value(cfg[5], 127) is None and "IndexError" in detail:
@@ -1319,7 +1344,9 @@ def shrink(prop, failure):
     out = dict(failure)
     out["input"] = cur
     try:
-        out["detail"] = f(cur)[:3]
+        d = f(cur)
+        if d:
+            out["detail"] = d[:3]
     except Exception:
         pass
     out["replay"] = f"./check {prop} --replay <this file>"
